@@ -1063,6 +1063,10 @@ impl<'de> serde::de::Visitor<'de> for ParsedValueSeed<'_> {
     where
         E: serde::de::Error,
     {
+        // a `null` can default a whole key, not one of the values of a range.
+        if self.in_range {
+            return Err(serde::de::Error::custom(Error::RangeExplicitDefault));
+        }
         Ok(ParsedValue::Default)
     }
 
